@@ -151,6 +151,19 @@ let parse_clause s =
                        c_a = nat_of_int (int_of_string a); c_b = nat_of_int (int_of_string b) }
   | _ -> failwith "clause"
 
+(* N <-> int *)
+let rec pos_of_int n : positive =
+  if n = 1 then XH else if n land 1 = 0 then XO (pos_of_int (n lsr 1)) else XI (pos_of_int (n lsr 1))
+let n_of_int n : n = if n = 0 then N0 else Npos (pos_of_int n)
+let rec int_of_pos = function XH -> 1 | XO p -> 2 * int_of_pos p | XI p -> 2 * int_of_pos p + 1
+let int_of_n = function N0 -> 0 | Npos p -> int_of_pos p
+let enc_f32 (x : float) : n = n_of_int ((Int32.to_int (Int32.bits_of_float x)) land 0xFFFFFFFF)
+let dec_f32 (b : n) : float = Int32.float_of_bits (Int32.of_int (int_of_n b))
+let unhex (h : string) : n list =
+  if h = "-" then [] else List.init (String.length h / 2) (fun i -> n_of_int (int_of_string ("0x" ^ String.sub h (2 * i) 2)))
+let tohex (b : n list) : string =
+  if b = [] then "-" else String.concat "" (List.map (fun c -> Printf.sprintf "%02x" (int_of_n c)) b)
+
 let no_oracle _ _ _ _ = nan
 
 (* value of handle [h] through the full pipeline in arithmetic [o] *)
@@ -237,6 +250,26 @@ let () =
                     let (r', _) = run (fun i -> pert k (varval i)) (pert k x) (pert (-. k) y) (pert k z) in
                     Float.max s (Float.abs (r' -. ref64))) 0.0 [1.0; -1.0] in
                 out (Printf.sprintf "V %s %s %s %s %s" (hex32 v32) (hex32 v32u) (hex64 ref64) (hex64 mx) (hex64 sens))
+            | "archive", nshapes :: rest ->
+                (* archive N, then per shape: h name doc nv, then nv pairs (varhandle name); variables in serialisation order *)
+                let rest = ref rest in
+                let next () = match !rest with x :: r -> rest := r; x | [] -> failwith "archive args" in
+                let shapes = List.init (int_of_string nshapes) (fun _ ->
+                    let t = h (next ()) in let name = unhex (next ()) in let doc = unhex (next ()) in
+                    let nv = int_of_string (next ()) in
+                    let vs = List.init nv (fun _ -> let v = h (next ()) in let nm = unhex (next ()) in (nat_of_int v, nm)) in
+                    { sh_tree = nat_of_int t; sh_name = name; sh_doc = doc; sh_vars = vs }) in
+                let (_, bytes) = serialize f32 enc_f32 !a shapes in
+                out ("B " ^ tohex bytes);
+                let (a2, loaded) = deserialize f32 dec_f32 (init_arena f32) bytes in
+                out ("N " ^ string_of_int (List.length loaded));
+                List.iter (fun sh ->
+                    let names = List.sort compare (List.map (fun (_, nm) -> tohex nm) sh.sh_vars) in
+                    let sorted = List.sort compare (List.map (fun (v, nm) -> (tohex nm, int_of_nat v)) sh.sh_vars) in
+                    let vi i = let rec find k = function [] -> -1 | (_, v) :: r -> if v = i then k else find (k + 1) r in find 0 sorted in
+                    out (Printf.sprintf "S name=%s doc=%s vars=%s dump=%s" (tohex sh.sh_name) (tohex sh.sh_doc)
+                           (if names = [] then "-" else String.concat "," names)
+                           (dump_dag a2 (int_of_nat sh.sh_tree) vi))) loaded
             (* --- second-stage commands: start from the implementation's artefact --- *)
             | "deckof", dag ->
                 let (a1, r, vars) = load_dag f32 dag in
